@@ -4,6 +4,7 @@ pub mod c01;
 pub mod c02;
 pub mod c03;
 pub mod c04;
+pub mod c05;
 pub mod c06;
 pub mod c07;
 pub mod c08;
@@ -26,6 +27,7 @@ pub fn dispatch(cfg: &Cfg) -> Option<Outcome> {
         "C02" => c02::run(cfg),
         "C03" => c03::run(cfg),
         "C04" => c04::run(cfg),
+        "C05" => c05::run(cfg),
         "C06" => c06::run(cfg),
         "C07" => c07::run(cfg),
         "C08" => c08::run(cfg),
